@@ -316,42 +316,62 @@ def _def_before_use(fn, lp, did, uses):
                 if sb:
                     starts.add(sb[0])
                     break
-    # per block: ordered events for this variable
+    # per block: ordered events for this variable, with the member path they touch (() = the whole object)
     ev = collections.defaultdict(list)
     for m, x, v, whole in uses:
         cur = x
+        path = []
+        par = fn.parent(cur)
+        while par is not None and par.get("k") in ("MemberExpr", "ArraySubscriptExpr") and kids(par)[0] is cur:
+            path.append(par.get("n") if par.get("k") == "MemberExpr" else "[]")
+            cur, par = par, fn.parent(par)
         sb = None
-        while cur is not None and sb is None:
-            if "i" in cur:
-                sb = cfg.stmt_block(cur["i"])
+        c2 = x
+        while c2 is not None and sb is None:
+            if "i" in c2:
+                sb = cfg.stmt_block(c2["i"])
             if sb is None:
-                cur = fn.parent(cur)
+                c2 = fn.parent(c2)
         if sb is None:
             continue
-        # a write counts as a (re)definition only if it assigns the whole object or the variable is a scalar
-        ev[sb[0]].append((sb[1], m, whole))
-    # DFS from starts; stop at blocks whose first event is a whole write; fail at a read first
-    seen, st = set(), list(starts)
-    while st:
-        b = st.pop()
-        if b in seen or b not in blocks_in and b not in starts:
-            continue
-        seen.add(b)
-        stop = False
-        for idx, m, whole in sorted(ev.get(b, [])):
-            if m == "r" or m.startswith("rw") or m == "addr":
-                return False
-            if m == "w" and whole:
-                stop = True
-                break
-            if m == "w" and not whole:
-                # member written first: treat as partial definition, keep scanning (conservative: later read fails)
+        ev[sb[0]].append((sb[1], m, tuple(path)))
+    written = {pth for evs in ev.values() for _, m, pth in evs if m != "r"}
+    if any(m not in ("r", "w") for evs in ev.values() for _, m, _ in evs):
+        targets = [()]                 # read-modify-write or address taken: judge the object as a whole
+    elif () in written:
+        targets = [()]
+    else:
+        # only members are assigned: each assigned member must be (re)assigned before it -- or the whole object -- is read;
+        # members that are never assigned in the loop are loop-invariant
+        targets = sorted(written)
+
+    def overlaps(a, b):
+        n = min(len(a), len(b))
+        return a[:n] == b[:n]
+    for tgt in targets:
+        if "[]" in tgt:
+            return False               # element writes: which element is not tracked
+        seen, st = set(), list(starts)
+        while st:
+            b = st.pop()
+            if b in seen or b not in blocks_in and b not in starts:
                 continue
-        if stop:
-            continue
-        for s in cfg.succs[b]:
-            if s in blocks_in:
-                st.append(s)
+            seen.add(b)
+            stop = False
+            for idx, m, pth in sorted(ev.get(b, [])):
+                if not overlaps(pth, tgt):
+                    continue
+                if m == "w" and len(pth) <= len(tgt):
+                    stop = True        # the target (or an enclosing object) is assigned
+                    break
+                if m == "w":
+                    continue           # a part of the target is assigned: not yet a full definition
+                return False           # read, read-modify-write or address taken before the assignment
+            if stop:
+                continue
+            for s in cfg.succs[b]:
+                if s in blocks_in:
+                    st.append(s)
     return True
 
 
